@@ -79,10 +79,19 @@ CHECKS['C16'] = dict(level=MC, ref='4 C16',
     note='bounded: 3 families (U1/Z2/Z3; U1xU1 & Z2xU1 with 4 fermionic flag settings; U1xU1xZ2) x 12 (quick) / 120 (thorough) programs incl. operands fused from different sector content x 5 cache modes; '
          '14+ cached functions exercised (vacuity gate: >= 10); oe_blocksparse path cache not included',
     technique='TLA+ state machine of LRU caches (LruCache) + TLC exhaustive + trace validation of proxied real cache calls + hyper-trace over cache states')
+CHECKS['C15'] = dict(level=MC, ref='4 C15',
+    text='Heap.tla: objects with an observable value and a may-share relation; actions Pure (result may share with operands, nothing changes), Fresh (copy/clone: shares with nothing) and InPlace '
+         '(may change the receiver and what shares storage with it); TLC checks the three action properties and copy isolation on all histories (<=4 objects, depth 6). Binding: drivers call the public '
+         'API on real tensors, MPS/MPO and PEPS; around every call the recorder digests EVERY live object (struct, slices, data bytes, fusion records, lazy permutation; N/pC/factor/site tensors; site data '
+         'and patch) and probes numpy.shares_memory of every new object with every live one; TraceHeap.tla validates each event against the model.',
+    note='bounded: 60/900 tensor call sequences of 14/18 calls over all symmetries (pure ops of C01 + copy/clone/shallow_copy + set_block + block-view writes), 18/240 MPS sequences (add, mul, conj, apply, '
+         'measure, to_tensor, reverse, copy/clone/shallow_copy, canonize_/truncate_/orthogonalize_site_/absorb_central_/item assignment), 4/24 PEPS sequences (copy/clone/shallow_copy, item assignment, '
+         'apply_gate_, Peps2Layers copy/clone); environments not driven yet; the API list is explicit in the drivers, not introspected',
+    technique='TLA+ aliasing model (Heap) + TLC + trace validation of recorded public calls with before/after digests of all live objects')
 NA = {}
 m = {"version": 1, "setup_cmd": "true",
      "hooks": {"guard": "YASTN_VERIF", "enable": "no source hooks so far: the harness wraps the public API from outside and imports yastn live from /repo (override: VERIF_REPO)",
-               "baseline_off_cmd": "cd /repo && /venv/bin/python -m pytest -q -p no:cacheprovider --timeout=900 -n 8", "source_commits": [], "add_only": True},
+               "baseline_off_cmd": "cd /repo && /venv/bin/python -m pytest -ra -q -p no:cacheprovider --timeout=900 --continue-on-collection-errors", "source_commits": [], "add_only": True},
      "engines": [{"name": "tlc", "path": "/verif/spec", "serves_properties": sorted(CHECKS), "kind_free_text": "TLA+ specifications checked with TLC 1.8 (exhaustive / simulate / batched trace validation)"},
                  {"name": "harness", "path": "/verif/harness", "serves_properties": sorted(CHECKS), "kind_free_text": "Python conformance harness: replays TLC behaviours into yastn, records traces from yastn for TLC"}],
      "checks": [], "not_applicable": []}
